@@ -8,13 +8,14 @@ the documented exception: it is monitored too, and only recorded.  The compiled 
 and reused under the ASan build.
 """
 import pickle
+import warnings
 
 import numpy
 
 PROPERTY = "C04"
 LEVEL = "exploration"
 NEED_EXT = True
-REQUIRED = ["rows.single", "rows.subset", "rows.permutation", "rows.repeat", "state.unchanged", "pickle",
+REQUIRED = ["rows.single", "rows.subset", "rows.permutation", "rows.ordered_batches", "rows.repeat", "state.unchanged", "pickle",
             "clone_with_fitted_parameters", "exception.balanced_predictions", "asan.criterion_copy", "accessors.pure", "rows.buffer_refilled_in_place", "poisoned_allocator", "upstream.rowwise_calls_judged", "second_life.copies", "refusing_local.batches", "rows.earlier_result_kept"]
 RULE = ("every registered class with row-wise methods x configurations x label sets x batches made of training rows, "
         "perturbed rows, far rows (buckets / cells / leaves unseen at training time), exact duplicates and a single "
@@ -139,6 +140,10 @@ def run_rows(case, ctx):
                         continue
                     ctx.violation(K + "fit/raised/%s" % type(e).__name__, str(e)[:150], cfg=cfg)
                     continue
+                try:
+                    blob0 = pickle.dumps(est)       # the model as it is when fit returns
+                except Exception:
+                    blob0 = None
                 Q = spec.query(rng, D)
                 n = nrows(Q)
                 # tree-based models: rows placed on the split thresholds and within half a float32 ulp of them
@@ -221,6 +226,26 @@ def run_rows(case, ctx):
                                 if not judge(i, pout[pos], "in a permuted batch"):
                                     ok = False
                                     break
+                        if ok and n >= 4 and isinstance(Q, numpy.ndarray) and Q.ndim == 2 and Q.dtype.kind in "fiu":
+                            # batches that come in an ORDER (a grid, a table sorted by a feature or by the score): the whole
+                            # sorted batch, every other row of it (a sorted batch with holes), its two ends - both ways
+                            keys_ = {"sorted-by-first-feature": numpy.asarray(Q[:, 0], dtype=float)}
+                            try:
+                                keys_["sorted-by-own-output"] = numpy.asarray(full, dtype=float).reshape(n, -1)[:, 0]
+                            except Exception:
+                                pass
+                            for oname, kv in keys_.items():
+                                order = numpy.argsort(kv, kind="stable").tolist()
+                                for sel in (order, order[::2], order[::3], [order[0], order[-1]], order[::-1],
+                                            [order[-1], order[0]], [order[0], order[n // 2], order[-1]]):
+                                    if not ok:
+                                        break
+                                    ctx.hit("rows.ordered_batches")
+                                    sout = spec.outputs(est, take(Q, sel), [m])[m]
+                                    for pos, i in enumerate(sel):
+                                        if not judge(i, sout[pos], "in-an-ordered-batch/%s" % oname):
+                                            ok = False
+                                            break
                         if ok:
                             ctx.hit("rows.repeat")
                             again = spec.outputs(est, Q, [m])[m]
@@ -279,6 +304,63 @@ def run_rows(case, ctx):
                         ctx.nontriv(spec.name, vi, dname, lname, m)
                 if unsupported:
                     continue
+                # ---- a history that mixes the methods: one of them is refused (a batch of another width) or serves a
+                # DataFrame with its own column names; every method then answers the batch - given as an array and as a
+                # frame with OTHER names - as it did before (a model fitted on an array has no names to compare with)
+                if spec.kind == "xy" and isinstance(Q, numpy.ndarray) and Q.ndim == 2 and Q.dtype.kind == "f" and \
+                        isinstance(D.get("X"), numpy.ndarray):
+                    import pandas
+                    meths = [m for m in spec.rowwise if not (m == "predict_leaves" and not hasattr(est, "leaves_index_"))]
+                    try:
+                        ref_all = spec.outputs(est, Q, meths)
+                    except Exception:
+                        ref_all = None
+                    for mb, pre in [(mb_, pre_) for mb_ in meths for pre_ in ("refused", "frame", "both")] \
+                            if ref_all is not None else ():
+                        if pre in ("refused", "both"):
+                            try:
+                                getattr(est, mb)(numpy.ones((2, Q.shape[1] + 1)))
+                            except Exception:
+                                ctx.hit("rows.mixed_methods.refused_call")
+                        with warnings.catch_warnings():
+                            warnings.simplefilter("ignore")
+                            if pre in ("frame", "both"):
+                                try:
+                                    getattr(est, mb)(pandas.DataFrame(Q, columns=["p%d" % j for j in range(Q.shape[1])]))
+                                except Exception:
+                                    pass
+                            # (the other methods first: calling the same method again may put right what it left)
+                            for m in [m_ for m_ in meths if m_ != mb] + [mb]:
+                                for cname, Qc in (("array", Q), ("frame-with-other-names", pandas.DataFrame(
+                                        Q, columns=["q%d" % j for j in range(Q.shape[1])]))):
+                                    try:
+                                        again = spec.outputs(est, Qc, [m])[m]
+                                    except Exception as e:
+                                        if cname == "array":
+                                            ctx.violation(K + "%s/raised-after-other-method/%s" % (m, type(e).__name__),
+                                                          "%s answered this batch; after a refused %s call and a %s call "
+                                                          "on a DataFrame it raises: %s" % (m, mb, mb, str(e)[:120]), cfg=cfg)
+                                            continue
+                                        try:
+                                            fresh_ok = blob0 is not None
+                                            if fresh_ok:
+                                                spec.outputs(pickle.loads(blob0), Qc, [m])
+                                        except Exception:
+                                            fresh_ok = False
+                                        if fresh_ok:
+                                            ctx.violation(K + "%s/raised-after-other-method/%s/frame" % (m, type(e).__name__),
+                                                          "a copy of the model taken after fit answers this DataFrame with "
+                                                          "%s; the model itself, after a refused %s call and a %s call on a "
+                                                          "frame with other names, raises: %s" % (m, mb, mb, str(e)[:120]),
+                                                          cfg=cfg)
+                                        continue
+                                    ctx.hit("rows.mixed_methods")
+                                    integer_ = numpy.asarray(ref_all[m]).dtype.kind in "iub"
+                                    if numpy.shape(again) != numpy.shape(ref_all[m]) or not all(
+                                            row_equal(ref_all[m][i], again[i], integer_) for i in range(n)):
+                                        ctx.violation(K + "%s/changed-by-other-method" % m, "%s answers the same batch (%s) "
+                                                      "differently after a refused %s call and a %s call on a DataFrame" % (
+                                                          m, cname, mb, mb), cfg=cfg)
                 # ---- reading a property / calling an accessor is an observation: it changes no later answer
                 try:
                     o_before = spec.outputs(est, Q, list(spec.methods))
